@@ -557,6 +557,10 @@ def run(chk) -> None:
     chk.robust |= {"stack-radius", "centroid-mean", "centroid-axes", "centroid-atoms", "stack-normals", "stack-offset", "stack-labels", "stack-emission", "stack-topology-enum", "base-normal-eval"}
     fi = repo.func(AN, "find_stackings")
     chk.note_function(fi)
+    if not any(isinstance(l, ast.For) and isinstance(l.iter, ast.Call) and astq.callee_name(l.iter) == "query_pairs" for l in fi.node.body):
+        from checks import c03e as _c03e
+
+        fi = _c03e.loopified(fi)  # a pair "loop" written as comprehensions is read as the loop it stands for
     fm = FlowMap(fi.node)
     inl = Inliner(fi.node)
     fold = Folder(repo, AN).fold
@@ -572,20 +576,28 @@ def run(chk) -> None:
     chk.robust |= {"stack-roles", "stack-skips", "stack-extra-filter", "stack-offset-vector", "stack-direction", "centroid-register", "model-filter", "same-residue-identity"}
     store = "pairs"
     try:
-        sites = c03e.build_sites(fi, loop)
+        sites = c03e.build_sites(fi, loop, repo)
         if "residue" not in sites.maps.values():
             raise c03e.NotReadable("no dictionary maps a centroid back to its residue")
         raw = [l for l in fi.node.body if isinstance(l, ast.For) and l.lineno == sites.res_loop.lineno]
-        c03e.check_model_filter(chk, fi, sites.res_loop, sites.res_var, sites.res_paths)
-        _centroid(chk, fi, fm, inl, raw[0] if raw else sites.res_loop)
-        c04e.check_registration(chk, fi, sites)
+        if sites.byvalue is not None:
+            chk.ok("reading", fi.where, f"registration read by value on stand-in residues: {sites.byvalue['why'][:100]}")
+            c03e.model_filter_by_value(chk, fi, sites)
+            if not c04e.centroid_by_value(chk, fi, sites.points):
+                raise c03e.NotReadable("centroid not evaluable")
+        else:
+            c03e.check_model_filter(chk, fi, sites.res_loop, sites.res_var, sites.res_paths)
+            # the centroid: by value when the statements before the KD-tree can be evaluated, by collection descriptors otherwise
+            if not c04e.centroid_by_value(chk, fi, sites.points):
+                _centroid(chk, fi, fm, inl, raw[0] if raw else sites.res_loop)
+                c04e.check_registration(chk, fi, sites)
         from checks.c03 import _eq_fields
 
         store = c04e.check_pair_loop(chk, fi, loop, sites, c, fold, make_label_of(repo), _eq_fields)
     except (c03e.NotReadable, c03e.SX.TooManyPaths) as ex:
         chk.ok("reading", fi.where, f"find_stackings: fact-level reading not possible ({str(ex)[:120]}); pinned-form rules used")
         saved = set(chk.robust)
-        chk.robust -= {"stack-roles", "stack-skips", "stack-extra-filter", "stack-offset-vector", "stack-direction", "centroid-register", "model-filter"}
+        chk.robust -= {"stack-roles", "stack-skips", "stack-extra-filter", "stack-offset-vector", "stack-direction", "centroid-register", "model-filter", "stack-normals", "stack-offset", "stack-labels", "centroid-mean", "centroid-axes", "centroid-atoms", "same-residue-identity"}
         try:
             _pair_loop_pinned(chk, fi, fm, inl, fold, loop, c)
         finally:
@@ -599,8 +611,13 @@ def run(chk) -> None:
     else:
         it, tgt, rec, site = ems[0]
         a, b, t = (e.id for e in tgt.elts)
+        keyed = astq.match(it, f"sorted({store}, key=K_)") is not None and isinstance(it, ast.Call)
         if norm(it) == f"sorted({store})":
             chk.ok("stack-emission", fi.site(site), "stackings are emitted in sorted order, one per recorded triple")
+        elif isinstance(it, ast.Call) and astq.callee_name(it) == "sorted" and len(it.args) == 1 and norm(it.args[0]) == store and any(k.arg == "key" for k in it.keywords):
+            from checks import c11e
+
+            c11e.check_sort_key(chk, fi, it, "stack-emission", "stackings")
         elif norm(it) in (store, f"set({store})", f"reversed({store})", f"list({store})"):
             chk.violation("stack-emission", fi.site(site), f"stackings are emitted by iterating `{norm(it)}`, not sorted({store}): the output order follows the KD-tree / set order", K(fi, "emission"), found=norm(it))
         else:
